@@ -27,6 +27,7 @@ CONSTANTS
 UNDEF == -1
 ModTests == 1    \* module ids (imports are sequences of ids; the harness maps names to ids)
 ModPe    == 2
+ModHash  == 3
 
 VARIABLES
   rs,          \* rule set [rules |-> Seq(rule), imports |-> Seq(module name)]
@@ -98,6 +99,7 @@ ETruth(c, r, file, V) ==      \* V: verdicts of the earlier rules; result TRUE /
     [] c.k = "Mod"   -> TRUE
     [] c.k = "PeSec" -> file.pesec
     [] c.k = "Ext"   -> file.ext = c.a
+    [] c.k = "Hash"  -> file.id = c.a          \* hash.md5(0, filesize) == digest of file c.a (distinct files have distinct digests)
 
 \* condition value of every rule on a clean scanner (rule references see the condition value only)
 EConds(file) ==
@@ -183,11 +185,12 @@ MTruth(c, i) ==
     [] c.k = "Mod"   -> ModTests \in DOMAIN modules
     [] c.k = "PeSec" -> ModPe \in DOMAIN modules /\ modules[ModPe].pesec
     [] c.k = "Ext"   -> cur.file.ext = c.a
+    [] c.k = "Hash"  -> ModHash \in DOMAIN modules /\ cur.file.id = c.a      \* computed from the bytes of THIS scan, cached per scan
 
 \* D9 (ModelD9): once an iterator call made by rule evaluation was answered not-ready, a value read through the
 \* iterator (uintN, module fields parsed from the data) may be undefined instead
 MTruthSet(c, i) ==
-  IF execNR /\ c.k \in {"U8", "PeSec"} THEN {MTruth(c, i), FALSE} ELSE {MTruth(c, i)}
+  IF execNR /\ c.k \in {"U8", "PeSec", "Hash"} THEN {MTruth(c, i), FALSE} ELSE {MTruth(c, i)}
 
 CleanState ==
   /\ matches' = ZeroMatches /\ ruleFlags' = {} /\ reqEval' = {} /\ nsUnsat' = {} /\ disabled' = {}
